@@ -46,7 +46,7 @@ def delay_args(dl, idx, named, params_out):
     raise ValueError(t)
 
 
-def build(prog, x0=None, via_ctor=False, initialize=True, ns=None, rules=()):
+def build(prog, x0=None, via_ctor=False, initialize=True, ns=None, rules=(), model_cls=None):
     """Returns (model, params) for a Crn program record {decl, rx}."""
     from bioscrape.types import Model
     ns = ns or max([0] + [s for rx in prog["rx"] for k in ("re", "pr", "dre", "dpr") for s in rx[k]] + list(prog["decl"]))
@@ -79,7 +79,10 @@ def build(prog, x0=None, via_ctor=False, initialize=True, ns=None, rules=()):
     if rules:
         # a name in a rule that is not yet a species is taken for a parameter: declare every species first
         decl = decl + [s for s in ic if s not in decl]
-    if via_ctor:
+    if model_cls is not None:
+        m = model_cls(species=decl, reactions=rtuples, parameters=list(params.items()), rules=list(rules),
+                      initial_condition_dict=ic, initialize_model=False)
+    elif via_ctor:
         m = Model(species=decl, reactions=rtuples, parameters=list(params.items()), rules=list(rules),
                   initial_condition_dict=ic, initialize_model=False)
     else:
